@@ -139,6 +139,63 @@ func c17Gen(r *Rng, mode string, n int) c17Case {
 	}
 	// the header fields below would make the driver drop frames before Stacks() sees them
 	p.DropFrames, p.KeepFrames = "", ""
+	// homonym strategy: functions with the same name on the same line in different files, and
+	// functions with the same name AND file but different ids/start lines (one source, several ids)
+	if r.Chance(30) {
+		lines := []int64{10, 10, 20, 0}
+		cols := []int64{0, 0, 1}
+		for _, l := range p.Location {
+			for i := range l.Line {
+				l.Line[i].Line = lines[r.Intn(len(lines))]
+				l.Line[i].Column = cols[r.Intn(len(cols))]
+			}
+		}
+		var maxID uint64
+		for _, f := range p.Function {
+			if f.ID > maxID {
+				maxID = f.ID
+			}
+		}
+		for k, n := 0, 1+r.Intn(3); k < n && maxID < 1<<62; k++ {
+			src := p.Function[r.Intn(len(p.Function))]
+			maxID++
+			twin := &profile.Function{ID: maxID, Name: src.Name, SystemName: src.SystemName, Filename: src.Filename, StartLine: src.StartLine + 1 + int64(r.Intn(5))}
+			if r.Bool() { // same name, other file
+				twin.Filename = []string{"pkg/a/a.go", "pkg/b/b.go", "other.go"}[r.Intn(3)]
+			}
+			p.Function = append(p.Function, twin)
+			for _, l := range p.Location {
+				for i := range l.Line {
+					if l.Line[i].Function == src && r.Chance(50) {
+						l.Line[i].Function = twin
+					}
+				}
+			}
+		}
+	}
+	// -trim_path / -source_path strategy: prefixes of some files, base names that occur elsewhere in
+	// other files' paths, relative values, several ':'-separated entries, trailing slashes
+	trimOpt, srcOpt := "", ""
+	if r.Chance(22) {
+		roots := []string{"/remote/build/proj", "/opt/vendor/proj", "/remote/build/projx", "/remote/build", "proj", "/home/u/src/proj/sub"}
+		tails := []string{"util/x.go", "util/y.go", "a.go", "proj/inner.go", "main.go"}
+		for _, f := range p.Function {
+			if r.Chance(70) {
+				f.Filename = roots[r.Intn(len(roots))] + "/" + tails[r.Intn(len(tails))]
+			}
+		}
+		trims := []string{"", "/remote/build/proj", "/remote/build/proj/", "/remote/build", "/remote/build/proj:/opt/vendor", "proj", "/nonexistent:/opt/vendor/proj",
+			"/remote", "/remote/build/pro", "util", "/", ":", "/opt/vendor/proj/util"}
+		srcs := []string{"", "/my/local/proj", "/x/util:/y/proj", "proj", "/remote/build/proj", ".", "/", "/a/sub:", "/q/projx/", "util"}
+		switch r.Intn(4) {
+		case 0:
+			trimOpt = trims[1+r.Intn(len(trims)-1)]
+		case 1:
+			srcOpt = srcs[1+r.Intn(len(srcs)-1)]
+		default:
+			trimOpt, srcOpt = trims[r.Intn(len(trims))], srcs[r.Intn(len(srcs))]
+		}
+	}
 	// environment strategy: file names with a path component equal to the basename of the directory
 	// the real code is started from; a second run from an unrelated directory must agree
 	cwdBase, altBase := "", ""
@@ -156,6 +213,7 @@ func c17Gen(r *Rng, mode string, n int) c17Case {
 	}
 	cs := c17Case{Mode: mode, Profile: Canon(p), SampleIndex: r.Intn(len(p.SampleType))}
 	cs.CwdBase, cs.AltCwdBase = cwdBase, altBase
+	cs.TrimPath, cs.SourcePath = trimOpt, srcOpt
 	var pickSel0 func(col int) (bool, string)
 	pickSel := func(col int) (bool, string) {
 		by, sel := pickSel0(col)
